@@ -12,8 +12,8 @@ Representation (exact):
   integers); a double is two words in the file's byte order; bytes are derived from words
   (`wordBytes`), so the byte-level file is `words.flatMap (wordBytes e)`;
 * an ASCII file is a list of characters; `%E` formatting of a double is modelled exactly
-  (`fmtE`: exact rational value, round-half-even to `digits+1` significant digits, exponent of at
-  least two digits, right-justified in `numlen`).
+  (`fmtE0`: exact rational value, round-half-even to `digits+1` significant digits, exponent of at
+  least two digits, right-justified in `numlen`; `fmtE`: one digit less when that is wider than `numlen`).
 
 Constants that the source spells as literals come from `Generated/Op4Consts.lean`, which is
 regenerated from op4.py on every run.
@@ -569,8 +569,14 @@ def expdigits : Nat := 2
 def numlen (d : Nat) : Nat := d + numlenBase + expdigits
 def perline (d : Nat) : Nat := lineWidth / numlen d
 
-/-- `numform % x` with `numform = '%{numlen}.{digits}E'` -/
-def fmtE (d : Nat) (b : Nat) : List Char := padLeft (numlen d) (sciChars d (sci d b))
+/-- `fmt % x` with `fmt = '%{numlen}.{digits}E'` -/
+def fmtE0 (d : Nat) (b : Nat) : List Char := padLeft (numlen d) (sciChars d (sci d b))
+
+/-- `numform(x)`, the function `_write_ascii_header` returns (repair of finding F3): `fmt % x`, or `fmt1 % x` with
+`fmt1 = '%{numlen}.{max(digits - 1, 0)}E'` when the former is wider than `numlen` (a negative value with a
+three-digit exponent) -/
+def fmtE (d : Nat) (b : Nat) : List Char :=
+  if (fmtE0 d b).length > numlen d then padLeft (numlen d) (sciChars (d - 1) (sci (d - 1) b)) else fmtE0 d b
 
 def fmtInt (w : Nat) (n : Int) : List Char := padLeft w (toString n).toList
 
